@@ -52,6 +52,10 @@ pub struct Case {
     /// `read_frame` future is dropped and a new one created, as the session loops do when something else wakes them
     #[serde(default)]
     pub cancel_after: Vec<usize>,
+    /// session change (stream mode, no cancellation): the connection ends after this many per-mille of the stream - wherever in a
+    /// frame that is - the reader is reset as at the start of every session, and the rest arrives on a new connection
+    #[serde(default)]
+    pub session_cut: Option<u16>,
 }
 
 pub struct LinkScenario;
@@ -493,6 +497,11 @@ impl Scenario for LinkScenario {
             segments,
             faults,
             cuts,
+            session_cut: if !datagram && cancel_after.is_empty() && rng.chance(1, 5) {
+                Some(rng.range(1, 999) as u16)
+            } else {
+                None
+            },
             cancel_after,
         }
     }
@@ -555,7 +564,18 @@ impl Scenario for LinkScenario {
         };
         let mut stream = built.stream.clone();
         apply_faults(&mut stream, &case.faults);
-        let damaged = stream != built.stream;
+        let mut damaged = stream != built.stream;
+        // where the first connection ends (octet offset into the stream)
+        let session_cut: Option<usize> = match case.session_cut {
+            Some(pm) if !case.datagram && case.cancel_after.is_empty() && stream.len() >= 2 => {
+                Some((stream.len() * pm as usize / 1000).clamp(1, stream.len() - 1))
+            }
+            _ => None,
+        };
+        if session_cut.is_some() {
+            // (a frame straddling the end of the connection is lost with it)
+            damaged = true;
+        }
 
         let buffer_size = {
             let n = (case.frag_size + 248) / 249;
@@ -578,6 +598,13 @@ impl Scenario for LinkScenario {
                 }
             }
             (frames, err)
+        } else if let Some(k) = session_cut {
+            // every session is deframed on its own; what the reader ends with is the end of the second one
+            let first = reflink::deframe(&stream[..k], discard);
+            let second = reflink::deframe(&stream[k..], discard);
+            let mut frames: Vec<RefFrame> = first.frames.into_iter().map(|x| x.1).collect();
+            frames.extend(second.frames.into_iter().map(|x| x.1));
+            (frames, second.first_error.is_some())
         } else {
             let r = reflink::deframe(&stream, discard);
             (
@@ -624,6 +651,10 @@ impl Scenario for LinkScenario {
             } else {
                 case.cuts.clone()
             });
+        let inbox2 = io::new_chan();
+        let sock2 = session_cut.map(|_| {
+            SimSocket::new("reader-2", inbox2.clone(), io::new_chan(), ChunkMode::All, 0).with_plan(case.cuts.clone())
+        });
         let frag_size = case.frag_size;
         let d2 = delivered.clone();
         let params = RunParams {
@@ -636,6 +667,7 @@ impl Scenario for LinkScenario {
                 let mut phys = PhysLayer::Sim(Box::new(sock));
                 let mut reader = Reader::new(modes, frag_size);
                 let mut payload = FramePayload::new();
+                let mut next_session = sock2;
                 loop {
                     let res = tokio::select! {
                         biased;
@@ -659,7 +691,18 @@ impl Scenario for LinkScenario {
                         }
                         Err(err) => {
                             d2.lock().unwrap().error = Some(format!("{:?}", err));
-                            break;
+                            match next_session.take() {
+                                Some(s2) => {
+                                    // the session is over (end of the connection, or a framing error in Close mode): the task
+                                    // resets the reader and runs the next session on the new connection
+                                    if let Some(core) = kernel::current() {
+                                        core.count("fault.session_change_mid_stream", 1);
+                                    }
+                                    reader.reset();
+                                    phys = PhysLayer::Sim(Box::new(s2));
+                                }
+                                None => break,
+                            }
                         }
                     }
                 }
@@ -673,6 +716,11 @@ impl Scenario for LinkScenario {
                         sim.settle().await;
                     }
                 }
+            } else if let Some(k) = session_cut {
+                let whole = datagrams.concat();
+                io::chan_push(&inbox, 0, whole[..k].to_vec());
+                io::chan_push(&inbox2, 0, whole[k..].to_vec());
+                io::chan_close(&inbox2, CloseKind::Eof);
             } else {
                 for d in datagrams {
                     io::chan_push(&inbox, 0, d);
@@ -875,6 +923,10 @@ impl Scenario for LinkScenario {
         outcome.count(
             "fault.read_future_cancelled",
             report.counters.get("fault.read_future_cancelled").copied().unwrap_or(0),
+        );
+        outcome.count(
+            "fault.session_change_mid_stream",
+            report.counters.get("fault.session_change_mid_stream").copied().unwrap_or(0),
         );
         outcome.count("frames_sent", built.frames.len() as u64);
         outcome.count("frames_delivered", got.frames.len() as u64);
